@@ -632,6 +632,14 @@ def decide(prop, tier, seed):
         else:
             inconclusive.append("%s: solver counterexample did not reproduce natively (%s): %s" % (s["name"], why, note[:300]))
 
+    # listed findings whose witness harness is not part of this tier (or that have no solver
+    # witness at all: demonstrated with real threads only) are still announced
+    witnessed = set(s.get("known_finding") for s in specs if s.get("role") == "witness")
+    for k in known.get("findings", []):
+        if k.get("property") == prop and k.get("key") not in witnessed and k not in known_hits:
+            k = dict(k)
+            k["what"] = k.get("what", k.get("key")) + " [listed finding; its witness is not run in the %s tier: %s]" % (tier, k.get("witness", "none"))
+            known_hits.append(k)
     wall = time.time() - t0
     write_evidence(prop, tier, seed, specs, results, wall, len(confirmed), known_hits, notes, inconclusive, h, C)
     for k in known_hits:
